@@ -980,6 +980,50 @@ func extractCloseProto(repo, root string) error {
 		before(firstIdx(pr, func(a atom) bool { return hasCall(a.node, false, "WithTimeout") || hasCall(a.node, false, "WithDeadline") }),
 			firstIdx(pr, func(a atom) bool { return hasCall(a.node, false, "Produce") })))
 
+	// ---- round 7: every request the pool queues for itself (background metadata refresh) carries a bounded context
+	ownBounded, nOwn := true, 0
+	if d := p.fns[fnKey{"connPool", "discover"}]; d != nil && d.Body != nil {
+		boundedVars := map[string]bool{}
+		ast.Inspect(d.Body, func(m ast.Node) bool {
+			if as, ok := m.(*ast.AssignStmt); ok && len(as.Rhs) == 1 && len(as.Lhs) >= 1 {
+				if c, ok := as.Rhs[0].(*ast.CallExpr); ok && (strings.HasSuffix(p.src(c.Fun), "WithTimeout") || strings.HasSuffix(p.src(c.Fun), "WithDeadline")) {
+					if id, ok := as.Lhs[0].(*ast.Ident); ok {
+						boundedVars[id.Name] = true
+					}
+				}
+			}
+			return true
+		})
+		ast.Inspect(d.Body, func(m ast.Node) bool {
+			cl, ok := m.(*ast.CompositeLit)
+			if !ok || !strings.Contains(p.src(cl.Type), "connRequest") {
+				return true
+			}
+			nOwn++
+			found := false
+			for _, el := range cl.Elts {
+				if kv, ok := el.(*ast.KeyValueExpr); ok && p.src(kv.Key) == "ctx" {
+					if id, ok := kv.Value.(*ast.Ident); ok && boundedVars[id.Name] {
+						found = true
+					}
+				}
+			}
+			if !found {
+				ownBounded = false
+			}
+			return true
+		})
+	} else {
+		ownBounded = false
+	}
+	add("poolOwnRequestsAreBounded", "(*connPool).discover: the metadata request the pool queues for itself carries the context returned by context.WithTimeout(ctx, p.metadataTTL) — conn.roundTrip arms the socket deadline only from the request's context", ownBounded && nOwn >= 1)
+	crt := p.flatten(p.fns[fnKey{"conn", "roundTrip"}], 0)
+	add("connRoundTripArmsDeadlineFromContext", "(*conn).roundTrip: when the request context has a deadline, pc.SetDeadline(deadline) before pc.RoundTrip",
+		before(firstIdx(crt, func(a atom) bool { return hasCall(a.node, false, "SetDeadline") }), firstIdx(crt, func(a atom) bool {
+			r, ok := a.node.(*ast.ReturnStmt)
+			return ok && hasCall(r, false, "RoundTrip")
+		})))
+
 	// ---- emit
 	sort.SliceStable(facts, func(i, j int) bool { return false })
 	var b strings.Builder
